@@ -223,6 +223,34 @@ def path_facts(fi_node: ast.FunctionDef, node: Node, inline_bools: bool = True) 
     return out
 
 
+def path_facts_avoiding(fi_node: ast.FunctionDef, node: Node, blocked_ids, inline_bools: bool = True, limit: int = 3000) -> Optional[List[Tuple[ast.expr, bool]]]:
+    """Branch conditions holding on every acyclic path from the entry to `node`
+    that avoids the nodes in `blocked_ids` (e.g. the paths on which an object was
+    *not* (re)initialised).  None when there is no such path."""
+    cfg = cfg_of(fi_node)
+    blocked = set(blocked_ids)
+    try:
+        paths = [p for p in cfg.acyclic_paths(cfg.entry.id, node.id, limit=limit) if not any(nid in blocked for (nid, lab) in p[:-1])]
+    except OverflowError:
+        return []
+    if not paths:
+        return None
+    common = None
+    for p in paths:
+        fs = {}
+        for (nid, lab) in p:
+            if lab and lab[0] == "cond":
+                fs[(id(lab[1]), lab[2])] = (lab[1], lab[2])
+        common = fs if common is None else {k: v for k, v in common.items() if k in fs}
+    out = []
+    for (t, pol) in (common or {}).values():
+        if inline_bools:
+            tn = flow_of(fi_node).node_containing(t)
+            t = _inline_bool_names(fi_node, t, tn)
+        out.append((t, pol))
+    return out
+
+
 def _inline_bool_names(fn: ast.FunctionDef, e: ast.expr, at: Optional[Node], depth: int = 0) -> ast.expr:
     """Replace Names that appear in boolean positions and are uniquely defined
     by a boolean expression (BoolOp / Compare / Not / call) with that expression."""
